@@ -50,10 +50,26 @@ let parse_cop (f : string list) : cop =
   | _ -> failwith "unknown op"
 let () =
   let s = ref (init_csys (nat_of_int 2) N0) in
+  (* `dgoinj k n`: the next n op lines are a harness transaction on the input table that commits inside the
+     leg's k-th transform call. It touches only the input table, the leg locks only the derived table and reads the
+     input table from the root it started with: the outcome is that of the leg followed by the transaction. *)
+  let collect = ref 0 in
+  let held = ref [] in
+  let run_line line f =
+    (match (try Some (parse_cop f) with _ -> None) with
+     | None -> Printf.printf "E unknown op: %s\n" line
+     | Some c -> let ((s', out), _) = cstep !s c in s := s'; print_endline (cout_s out)) in
+  let leg () =
+    let ((s', out), _) = cstep !s CDeriveGo in s := s';
+    (match out with CoRan (ran, _) -> Printf.printf "ran=%s\n" (bs ran) | o -> print_endline (cout_s o));
+    List.iter (fun l -> run_line l (split_ws l)) (List.rev !held);
+    held := [] in
   read_lines_iter (fun line ->
     match split_ws line with
     | [] -> ()
-    | "#case" :: _ -> print_endline line; s := init_csys (nat_of_int 2) N0
+    | "#case" :: _ -> print_endline line; s := init_csys (nat_of_int 2) N0; collect := 0; held := []
+    | _ when !collect > 0 -> held := line :: !held; decr collect; if !collect = 0 then leg ()
+    | ["dgoinj"; _; n] -> collect := int_of_string n; held := []; if !collect = 0 then leg ()
     | ["mode"; m] -> s := init_csys (nat_of_int 2) (nn m); print_endline "ok"
     | f ->
       (match (try Some (parse_cop f) with _ -> None) with
